@@ -623,4 +623,64 @@ positions = {
 for n, body in positions.items():
     w(f"positions/{n}.jsx", body)
 w("positions/all-in-one.jsx", "\n".join(b for n, b in positions.items() if not n.startswith("export-default")))
+
+# ---- N. (after S55) degenerate but legal programs: nothing, or only one kind of thing, at module level and inside
+# function bodies and blocks (each also runs as a Script where it has no import/export)
+degenerate = {
+    "only-directive": "'use strict';",
+    "only-directives": "'use client';\n'use strict';\n\"use asm\";",
+    "directive-then-jsx": "'use client';\nconst a = <A>{foo()}</A>;",
+    "directives-then-import-then-jsx": "'use client';\n'use strict';\nimport { h } from 'vue';\nexport default <A>{foo()}</A>;",
+    "fn-only-directive": "function f() { 'use strict' }\nconst g = () => { 'use strict'; };\nclass K { m() { 'use strict' } static { 'x'; } }",
+    "fn-directive-then-jsx": "function f() { 'use strict'; return <A>{foo()}</A>; }\nconst g = function () { 'use strict'; 'second'; const a = <B>{bar()}</B>; return a; };",
+    "blocks-of-strings": "{ 'a'; 'b'; }\nif (c) { 'only'; }\nswitch (k) { case 1: 'one'; 'two'; default: 'd'; }\nlabel: { 'x' }\nfor (;;) { 'loop'; break; }",
+    "only-comments": "// nothing here\n/* @jsx h */\n/** doc */",
+    "only-imports": "import 'side-effect';\nimport { Fragment } from 'vue';\nimport * as V from 'vue';",
+    "only-exports": "export {};\nexport * from './x';\nexport { a as b } from './y';",
+    "only-types": "type A = string;\ninterface B { a: A }\ndeclare const c: B;\nexport type { B };",
+    "single-expression": "<A>{foo()}</A>",
+    "single-parenthesised": "(<A>{foo()}</A>);",
+    "empty-statements": ";;;\n{}\n;",
+    "empty-functions": "function f() {}\nconst g = () => {};\nclass K { m() {} static {} }\nconst o = { m() {}, get g() { return 1 } };",
+    "whitespace-only": "\n\n   \n",
+    "hashbang": "#!/usr/bin/env node\nconst a = <A>{foo()}</A>;",
+    "jsx-only-in-dead-code": "if (false) { <A>{foo()}</A> }\nfunction never() { return; <B>{bar()}</B> }",
+}
+for n, body in degenerate.items():
+    ext = "tsx" if n == "only-types" else "jsx"
+    w(f"degenerate/{n}.{ext}", body)
+
+# ---- O. (after S58) pattern lists whose elements are textual variants of one another: delimiters, flags written
+# inline or JS-style, case, anchors, surrounding blanks. Each is a valid regex for the `regex` crate as it stands
+# (`/^x-/i` is a pattern that can never match); state keyed by a normalised form of a pattern shows when two of
+# these meet in one process
+variant_src = "\n".join([
+    "const a = <x-foo>{k}</x-foo>;", "const b = <X-Foo>{k}</X-Foo>;", "const c = <xx-foo>{k}</xx-foo>;", "const d = <x-foo-bar a={1}>{k}<X-BAR>{j}</X-BAR></x-foo-bar>;",
+    "const e = <my-x- p={q}>{k}</my-x->;", "const f = <Comp><x->{k}</x-></Comp>;",
+])
+variants = {
+    "plain": '["^x-"]', "slashes": '["/^x-/"]', "slashes-i": '["/^x-/i"]', "inline-i": '["(?i)^x-"]', "upper": '["^X-"]', "anchored": '["^x-$"]',
+    "blank-before": '[" ^x-"]', "group": '["(^x-)"]', "noncapturing": '["(?:^x-)"]', "class": '["^[x]-"]', "escaped": '["^x\\\\-"]', "alt": '["^x-|^x-"]',
+    "two-same": '["^x-","^x-"]', "plain-then-i": '["^x-","(?i)^x-"]', "i-then-plain": '["(?i)^x-","^x-"]', "flags-x": '["(?x) ^ x -"]',
+}
+for n, pats in variants.items():
+    w(f"patterns-variants/v-{n}.jsx", variant_src, '{"optimize":true,"customElementPatterns":' + pats + '}')
+
+# ---- P. (after S56) declaration merging across several blocks, with qualified references into the merged thing
+w("namespaces/merged.tsx", hdr + "\n".join([
+    "namespace Foo { export interface Props { label: string } export type Ev = { (e: 'a'): void }; export type Size = 'foo-1' }",
+    "namespace Foo { export interface Props { size: number } export type Ev2 = { (e: 'b'): void }; export namespace Inner { export interface Props { deep1: string } } }",
+    "namespace Foo { export interface Props { third: boolean } export namespace Inner { export interface Props { deep2: number } } }",
+    "declare module 'm' { export interface Props { fromModule: string } }", "declare module 'm' { export interface Props { fromModule2: string } }",
+    "declare global { namespace G { interface Props { g1: string } } }", "declare global { namespace G { interface Props { g2: string } } }",
+    "enum E { A = 'a' } enum E { B = 'b' }", "class K { a = 1 } interface K { b: string } namespace K { export interface Props { k: 1 } }",
+    "const C = defineComponent((p: Foo.Props, c: SetupContext<Foo.Ev>) => {});", "const D = defineComponent((p: Foo.Inner.Props & Foo.Props) => {});",
+    "const F = defineComponent((p: { a: Foo.Props['label']; b: Foo.Size; c: G.Props; d: K.Props; e: E; f: K }) => {});",
+    "const H = defineComponent((p: Pick<Foo.Props, 'label' | 'size'> & Partial<Foo.Inner.Props>, c: SetupContext<Foo.Ev & Foo.Ev2>) => {});",
+]), '{"resolveType":true,"optimize":true}')
+
+# (after S24) enough distinct names in ONE module to push any bounded process-wide table over its capacity before
+# the next transform starts; own option set only (17 000 elements per execution)
+w("many/tags-17000.jsx", "\n".join([f"const t{i} = <cust-t{i} a={{x}}>{{k}}</cust-t{i}>;" for i in range(17000)]), '{"optimize":true,"customElementPatterns":["^cust-t1","^x-"]}')
+open(os.path.join(root, "many/tags-17000.only-own"), "w").write("")
 print("generated under", os.path.normpath(root))
